@@ -1,4 +1,4 @@
-import TaskModel.Sched.KidInv
+import TaskModel.Sched.WaiterLemmas
 import Props.C14
 /-!
 # C02 — Commands of a task run one at a time, in order; task calls are synchronous
@@ -103,6 +103,48 @@ theorem C02_descendants_done (P : Program) (F : Flags) (n : Nat) (tr : List Labe
     obtain ⟨k, hk1, hk2, _⟩ := hfin
     exact ih k hk1 hk2
 
+/-- the same for any activation that is not waiting for kids at the moment (e.g. a shared
+execution that has finished but not yet exited) -/
+theorem C02_descendants_done_quiet (P : Program) (F : Flags) (n : Nat) (tr : List Label) (c : Config)
+    (h : replay P F (init n) tr = some c) (a b : Nat) (x : Act) (hx : c.act? a = some x)
+    (hq : x.phase ≠ .depsWait ∧ ∀ i d, x.phase ≠ .inCall i d) (hb : Descendant c a b) : Finished c b := by
+  have hnr : ∀ s, ¬ mayRun x s := by
+    rintro s (h1 | ⟨i, d, h1, _⟩)
+    · exact hq.1 h1
+    · exact hq.2 i d h1
+  cases hb with
+  | kid hx' hm =>
+    rename_i x' s
+    have e : x = x' := Option.some.inj (hx.symm.trans hx')
+    subst e
+    exact C02_kids_done_unless_waiting P F n tr c h a x hx s b hm (hnr s)
+  | trans hx' hm hd =>
+    rename_i x' s kid
+    have e : x = x' := Option.some.inj (hx.symm.trans hx')
+    subst e
+    obtain ⟨k, hk1, hk2, _⟩ := C02_kids_done_unless_waiting P F n tr c h a x hx s kid hm (hnr s)
+    exact C02_descendants_done P F n tr c h kid b k hk1 hk2 hd
+
+/-- **C02 (calls of a deduplicated task).** If the called activation did not run the task
+itself but waited for the shared execution of a `run: once` / `when_changed` task, then —
+as soon as it has been woken, in particular when it has returned to its caller — that
+execution has finished: its command loop and all its deferred entries are over, all its
+descendants have returned, and the waiter's result is the execution's result.  (This is
+the repaired `startExecution`; the unrepaired code wakes waiters on cancellation.) -/
+theorem C02_waiter_sync (P : Program) (F : Flags) (n : Nat) (tr : List Label) (c : Config)
+    (h : replay P F (init n) tr = some c) (a : Nat) (x : Act) (hx : c.act? a = some x)
+    (k : Nat) (hw : x.waitsFor = some k) (hp : x.phase ≠ .wWaiting ∧ x.phase ≠ .wReleased) :
+    ∃ e ex, c.execs.lookup k = some e ∧ c.act? e = some ex ∧ execOver ex.phase = true ∧
+      ex.res = x.res ∧ ex.ran = ex.regs.reverse ∧ ∀ b, Descendant c e b → Finished c b := by
+  obtain ⟨_, g⟩ := WInv_sound P F n tr c h a x hx k hw
+  obtain ⟨e, ex, h1, h2, h3, h4⟩ := (execResultOf_some c k x.res).mp (g hp.1 hp.2)
+  refine ⟨e, ex, h1, h2, h3, h4, ?_, ?_⟩
+  · refine Props.C14.C14_all_run P F n tr c h e ex h2 ?_
+    revert h3; cases ex.phase <;> simp [execOver, Props.C14.post]
+  · intro b hb
+    refine C02_descendants_done_quiet P F n tr c h e b ex h2 ?_ hb
+    revert h3; cases ex.phase <;> simp [execOver]
+
 /-- **C02 (synchronous calls).** When the caller continues after a `task:` entry (`callRet`),
 the callee has returned, the caller continues with the callee's result, every deferred
 entry of the callee has run, and every descendant of the callee — its dependencies, its
@@ -182,6 +224,21 @@ example : (replay prog {} (init 1) (run1.take 32 ++ [⟨2, .callRet 1⟩])).isNo
 example : (replay prog {} (init 1) (run1.take 24 ++ [⟨2, .cmdStart 2 none false⟩])).isNone = true := by decide
 -- commands out of declaration order are rejected
 example : (replay prog {} (init 1) (run1.take 23 ++ [⟨2, .cmdStart 2 none false⟩])).isNone = true := by decide
+-- a call of a `run: once` task that becomes a waiter: woken only after the shared execution is over
+private def progO : Program := [ { run := .once, cmds := [.shell 0 false false] }, { cmds := [.call 0 false] } ]
+private def runO : List Label :=
+  [⟨1, .enter (.top 0) 0⟩, ⟨1, .acquire⟩, ⟨1, .register 5⟩, ⟨1, .depsRelease⟩, ⟨1, .depsReacq⟩, ⟨1, .depsDone .ok⟩,
+   ⟨1, .guardsPassed⟩, ⟨1, .cmdStart 0 none false⟩,
+   ⟨2, .enter (.top 1) 1⟩, ⟨2, .acquire⟩, ⟨2, .depsRelease⟩, ⟨2, .depsReacq⟩, ⟨2, .depsDone .ok⟩, ⟨2, .guardsPassed⟩,
+   ⟨2, .callRelease 0 false⟩,
+   ⟨3, .enter (.call 2 0 false) 0⟩, ⟨3, .acquire⟩, ⟨3, .waiter 5⟩, ⟨3, .wRelease⟩,
+   ⟨1, .cmdEnd 0 .ok⟩, ⟨1, .execDone⟩,
+   ⟨3, .wWake⟩, ⟨3, .wReacq⟩, ⟨3, .release⟩, ⟨3, .exit⟩,
+   ⟨2, .callRet 0⟩, ⟨2, .callReacq 0⟩, ⟨2, .release⟩, ⟨2, .exit⟩, ⟨1, .release⟩, ⟨1, .exit⟩]
+example : ((replay progO { parallel := true } (init 2) runO).bind (·.act? 3)).map (fun x => (x.waitsFor, x.phase, x.res)) =
+    some (some 5, .done, .ok) := by decide
+example : (replay progO { parallel := true } (init 2) (runO.take 19 ++ [⟨3, .wWake⟩])).isNone = true := by decide
+example : (replay progO { parallel := true } (init 2) (runO.take 20 ++ [⟨3, .wWake⟩])).isNone = true := by decide
 -- the monitor accepts every activation of the run, and is not trivially true
 example : seqMonAll run1 = true := by decide
 example : (seqMon.run seqMon.init (evsOf 2 (run1.take 24 ++ [⟨2, .cmdStart 2 none false⟩]))).isSome = false := by decide
